@@ -25,7 +25,8 @@ PROP = "C08"
 
 def dnc_names(rec):
     d = rec.get("opts", {}).get("do_not_copy")
-    return list(d) if isinstance(d, list) else []
+    out = list(d) if isinstance(d, list) else []
+    return out + [G.attr_name(a) for a in rec["attrs"] if a.get("default") == "attr_dnc" and G.attr_name(a) not in out]
 
 
 class Oracle:
@@ -66,8 +67,14 @@ class Oracle:
         for i, o in enumerate(w.objs):
             if i != t:
                 roots[f"peer{i}"] = o
+        by_reference = set()  # objects held through do_not_copy attributes: carried by identity BY DESIGN (C02), caller's object included
+        for o in w.objs:
+            for n in dnc_names(ctx.rec):
+                if n in vars(o):
+                    by_reference.update(snap.reachable_mutable(vars(o)[n]))
         for i, a in enumerate(w.ctor_args):
-            roots[f"ctor_arg{i}"] = a
+            if id(a) not in by_reference:
+                roots[f"ctor_arg{i}"] = a
         roots.update(class_defaults(ctx.env))
         ctx.store["roots"] = roots
         ctx.store["each"] = {n: snap.canon([o]) for n, o in roots.items()}
@@ -195,6 +202,8 @@ def family(tier):
             add(G.single(k, base, inherit=inh))
             add(G.single(k, "attr_factory", inherit=inh))
     for r in G.COMPOSITES:
+        add(r)
+    for r in G.policy_inheritance_records() + G.base_first_records():
         add(r)
     # defaults that the attribute's preparer changes: a reset value must equal what a new instance holds
     add(G.single("words", "mut", preparers=["words"]))
